@@ -155,8 +155,14 @@ AdjustToBoundsAgrees ==
 
 \* a live proposal with neither power nor bounds behaves like no proposal
 EmptyProposalIsNoProposal ==
+    \* C04 states this for mutually compatible bounds.  In the documented SystemBounds shape (zone
+    \* inside the inclusion bounds) the design satisfies it for every proposal set, and that is
+    \* pinned; where the inclusion bounds end inside the zone it is demanded for conflict-free
+    \* sets only (with conflicting bounds the extra Adjust step an empty proposal triggers can
+    \* move the point at which the sweep stops).
     \A a \in Actors :
-       (bucket[a].live /\ bucket[a].pref = None /\ bucket[a].lo = None /\ bucket[a].hi = None) =>
+       (/\ bucket[a].live /\ bucket[a].pref = None /\ bucket[a].lo = None /\ bucket[a].hi = None
+        /\ (StandardSys(sys) \/ ConflictFree(bucket, sys, 1))) =>
           LET p2 == [bucket EXCEPT ![a] = NoProp] IN
           /\ Target(p2, sys) = T
           /\ \A k \in Actors : ReportedSet(StatusBounds(p2, sys, Prio[k]), sys) = ReportedSet(StatusBounds(bucket, sys, Prio[k]), sys)
